@@ -863,6 +863,14 @@ func (self *ReplicationClient) readLock() error {
 }
 
 func (self *ReplicationClient) Process() error {
+	// the waiters Run joins on exist before the pipelines are started: a connection that dies before the three
+	// goroutines have been scheduled must not let Run reconnect (with a stale position, or flush the databases)
+	// while the records already queued for them are still going to be applied
+	self.glock.Lock()
+	self.replayWaiter = make(chan struct{})
+	self.appendWaiter = make(chan struct{})
+	self.pushWaiter = make(chan struct{})
+	self.glock.Unlock()
 	go self.ProcessReplayLock()
 	go self.ProcessAofAppend()
 	go self.ProcessPushAofLock()
@@ -922,12 +930,6 @@ func (self *ReplicationClient) Process() error {
 }
 
 func (self *ReplicationClient) ProcessReplayLock() {
-	self.glock.Lock()
-	if self.replayWaiter != nil {
-		close(self.replayWaiter)
-	}
-	self.replayWaiter = make(chan struct{})
-	self.glock.Unlock()
 	defer func() {
 		self.glock.Lock()
 		if self.replayWaiter != nil {
@@ -960,12 +962,6 @@ func (self *ReplicationClient) ProcessReplayLock() {
 }
 
 func (self *ReplicationClient) ProcessAofAppend() {
-	self.glock.Lock()
-	if self.appendWaiter != nil {
-		close(self.appendWaiter)
-	}
-	self.appendWaiter = make(chan struct{})
-	self.glock.Unlock()
 	defer func() {
 		self.glock.Lock()
 		if self.appendWaiter != nil {
@@ -1049,12 +1045,6 @@ func (self *ReplicationClient) ProcessAofAppend() {
 }
 
 func (self *ReplicationClient) ProcessPushAofLock() {
-	self.glock.Lock()
-	if self.pushWaiter != nil {
-		close(self.pushWaiter)
-	}
-	self.pushWaiter = make(chan struct{})
-	self.glock.Unlock()
 	defer func() {
 		self.glock.Lock()
 		if self.pushWaiter != nil {
